@@ -29,11 +29,21 @@ DEPTH of nested calls, identically on both sides.
 import GooseVerif.Lemmas.FunEx
 import GooseVerif.Lemmas.FunGoose
 
+import GooseVerif.Gen.Guards
+import GooseVerif.Expected.Guards
+
 set_option linter.unusedSimpArgs false
 set_option linter.unusedVariables false
 
 namespace GooseVerif.Props.C01Fun
 open GooseVerif.Model.Fun
+
+/-- T-gen obligation: the functions of goose.go this model was written from (`funcDecl`, `paramList`, `returnExpr`, `funcLit`,
+`callExpr`, `methodExpr`, `selectorMethod`, `newCoqCallTypeArgs`, `coqRecurFunc`, …; the variable forms and `multipleAssignStmt`
+are in `scoping` and `coll`) have, up to formatting, the committed text. -/
+theorem fun_facts_ok :
+    GooseVerif.Gen.Guards.funs = GooseVerif.Expected.Guards.funs ∧
+    GooseVerif.Gen.Guards.scoping = GooseVerif.Expected.Guards.scoping := ⟨rfl, rfl⟩
 open GooseVerif.Model.Heap (look)
 open GooseVerif.Model.Coll (Obj getCell getArr Cmp)
 
